@@ -19,6 +19,7 @@ LIB = {
  "C11": ("fault enumeration: for each sampled (model, knobs, schedule, operation) the uninterrupted twin gives the number of polls N; a fresh identical run is interrupted at every poll k in 0..N (sampled above 60 / 400) and the same solver is asked again with a clock that never fires", "§6 C11"),
  "C12": ("posting-only histories (variable creations interleaved with postings, views with negative / non-unit scale): after every op the reported bounds and literal values enclose every reference solution of the prefix, stay inside the declared domain and only tighten", "§6 C12"),
  "C17": ("explanation tap (hook H1): every propagation's reason (eager at propagation time, lazy when evaluated, implicit-predicate reasons handed to conflict analysis) and every reported conflict is checked for truth of its facts in the state in which it is given and for sufficiency against the single tagged constraint by enumeration over its scope and the declared domains", "§6 C17"),
+ "C19": ("stream simulation: generated step sequences (inferences with/without tag, label, conclusion, 0..n premises; nogoods with 0..n literals and absent / empty / non-empty hints; deletions; conclusion), literal-definition files and atomic constraints are written with the real ProofWriter / LiteralDefinitions::write into a simulated pipe that delivers bytes under a seeded schedule of short writes, short reads and retryable Interrupted errors, and read back with the real ProofReader / parser; sequences must be equal; atomics are negated twice. Honest note: above the std buffering layer the code is a pure function of its input, so the stream schedule is a thin dimension and the generated corner layouts carry most of the weight", "§6 C19"),
  "C18": ("decision tap (hook H3) while built-in branchers (11 x 14 selector matrix, default / alternating / dynamic / autonomous branchers) drive iterate-all runs: every proposal is undecided and over a variable of the brancher, None only when everything is fixed; plus termination and completeness of the enumeration", "§6 C18"),
 }
 
